@@ -403,6 +403,331 @@ func cfReaderReturns(fset *token.FileSet, list []ast.Stmt, seen, charged bool, o
 	return seen, charged
 }
 
+
+// ---- Manager.UpdateAll: what happens to a RUNNING proxy on a reload, and who writes a running proxy's configuration
+
+// selector chain of an lvalue, looking through *x, (x), x[i]: root identifier and the selected names
+func cfLPath(e ast.Expr) (string, []string) {
+	var parts []string
+	for {
+		switch x := e.(type) {
+		case *ast.SelectorExpr:
+			parts = append([]string{x.Sel.Name}, parts...)
+			e = x.X
+		case *ast.StarExpr:
+			e = x.X
+		case *ast.ParenExpr:
+			e = x.X
+		case *ast.IndexExpr:
+			e = x.X
+		case *ast.Ident:
+			return x.Name, parts
+		default:
+			return "", parts
+		}
+	}
+}
+
+type cfUpdateAll struct {
+	delConds [][]string // for every `del = true`: the conditions on the way to it
+	touches  []string   // everything loop 1 does WITH the running wrapper besides reading its fields
+	delBody  []string   // the calls under `if del`
+	addCalls []string   // the callees of loop 2
+}
+
+func cfUpdateAllFacts(fset *token.FileSet, fd *ast.FuncDecl) (*cfUpdateAll, error) {
+	var loops []*ast.RangeStmt
+	for _, st := range fd.Body.List {
+		if r, ok := st.(*ast.RangeStmt); ok {
+			loops = append(loops, r)
+		}
+	}
+	if len(loops) != 2 || !strings.HasSuffix(cfSrc(fset, loops[0].X), ".proxies") {
+		return nil, fail("client/proxy/proxy_manager.go: UpdateAll is not `for … range pm.proxies {…}` followed by one loop over the new configuration")
+	}
+	val, ok := loops[0].Value.(*ast.Ident)
+	if !ok {
+		return nil, fail("client/proxy/proxy_manager.go: UpdateAll: loop 1 has no value variable")
+	}
+	u := &cfUpdateAll{}
+	var walk func(list []ast.Stmt, chain []string)
+	note := func(n ast.Node) {
+		ast.Inspect(n, func(x ast.Node) bool {
+			switch v := x.(type) {
+			case *ast.CallExpr:
+				if sel, ok := v.Fun.(*ast.SelectorExpr); ok {
+					if id, ok := sel.X.(*ast.Ident); ok && id.Name == val.Name {
+						u.touches = append(u.touches, sel.Sel.Name)
+					}
+				}
+				for _, a := range v.Args {
+					if id, ok := a.(*ast.Ident); ok && id.Name == val.Name {
+						u.touches = append(u.touches, cfSrc(fset, v.Fun)+"(.."+val.Name+"..)")
+					}
+					if ue, ok := a.(*ast.UnaryExpr); ok && ue.Op == token.AND {
+						if root, _ := cfLPath(ue.X); root == val.Name {
+							u.touches = append(u.touches, cfSrc(fset, v.Fun)+"(.."+cfSrc(fset, a)+"..)")
+						}
+					}
+				}
+			case *ast.AssignStmt:
+				for _, l := range v.Lhs {
+					if root, path := cfLPath(l); root == val.Name && len(path) > 0 {
+						u.touches = append(u.touches, cfSrc(fset, l)+" =")
+					}
+				}
+			}
+			return true
+		})
+	}
+	walk = func(list []ast.Stmt, chain []string) {
+		for _, st := range list {
+			switch t := st.(type) {
+			case *ast.IfStmt:
+				if t.Init != nil {
+					note(t.Init)
+				}
+				note(t.Cond)
+				c := cfSrc(fset, t.Cond)
+				if c == "del" {
+					ast.Inspect(t.Body, func(x ast.Node) bool {
+						if ce, ok := x.(*ast.CallExpr); ok {
+							u.delBody = append(u.delBody, cfSrc(fset, ce))
+						}
+						return true
+					})
+				}
+				walk(t.Body.List, append(append([]string(nil), chain...), c))
+				switch e := t.Else.(type) {
+				case *ast.BlockStmt:
+					walk(e.List, append(append([]string(nil), chain...), "!("+c+")"))
+				case *ast.IfStmt:
+					walk([]ast.Stmt{e}, append(append([]string(nil), chain...), "!("+c+")"))
+				}
+			case *ast.BlockStmt:
+				walk(t.List, chain)
+			case *ast.AssignStmt:
+				note(t)
+				if len(t.Lhs) == 1 && len(t.Rhs) == 1 && cfSrc(fset, t.Lhs[0]) == "del" && cfSrc(fset, t.Rhs[0]) == "true" {
+					u.delConds = append(u.delConds, append([]string(nil), chain...))
+				}
+			default:
+				note(st)
+			}
+		}
+	}
+	walk(loops[0].Body.List, nil)
+	ast.Inspect(loops[1].Body, func(x ast.Node) bool {
+		if ce, ok := x.(*ast.CallExpr); ok {
+			u.addCalls = append(u.addCalls, cfSrc(fset, ce.Fun))
+		}
+		return true
+	})
+	return u, nil
+}
+
+// every assignment (not a definition) in client/proxy whose target lies on a path through a configuration holder:
+// Wrapper.Cfg, Wrapper.pxy, BaseProxy.baseCfg, the typed proxies' cfg — as "<file>:<func>:<target>"
+func cfCfgWriters(fset *token.FileSet, repo string) ([]string, error) {
+	dir := filepath.Join(repo, "client", "proxy")
+	ents, err := os.ReadDir(dir)
+	if err != nil {
+		return nil, err
+	}
+	holders := map[string]bool{"Cfg": true, "pxy": true, "baseCfg": true, "cfg": true}
+	var out []string
+	for _, e := range ents {
+		n := e.Name()
+		if e.IsDir() || !strings.HasSuffix(n, ".go") || strings.HasSuffix(n, "_test.go") || strings.HasPrefix(n, "verif_") {
+			continue
+		}
+		f, err := parser.ParseFile(fset, filepath.Join(dir, n), nil, 0)
+		if err != nil {
+			return nil, err
+		}
+		for _, d := range f.Decls {
+			fd, ok := d.(*ast.FuncDecl)
+			if !ok || fd.Body == nil {
+				continue
+			}
+			ast.Inspect(fd.Body, func(x ast.Node) bool {
+				as, ok := x.(*ast.AssignStmt)
+				if !ok || as.Tok == token.DEFINE {
+					return true
+				}
+				for _, l := range as.Lhs {
+					_, path := cfLPath(l)
+					for _, seg := range path {
+						if holders[seg] {
+							out = append(out, fmt.Sprintf("client/proxy/%s:%s:%s", n, fd.Name.Name, cfSrc(fset, l)))
+							break
+						}
+					}
+				}
+				return true
+			})
+		}
+	}
+	sort.Strings(out)
+	return out, nil
+}
+
+// ---- server BaseProxy.GetWorkConnFromPool: where the StartWorkConn message comes from
+
+type cfStartMsg struct {
+	shape      string      // "literal" = msg.WriteMsg(…, &msg.StartWorkConn{…}) | "other:<argument>"
+	fields     [][3]string // (key, value, every variable in the value is declared inside the function)
+	recvWrites []string    // writes through / addresses taken of the receiver in the function and the methods it calls
+}
+
+func cfStartMsgFacts(fset *token.FileSet, repo string) (*cfStartMsg, error) {
+	dir := filepath.Join(repo, "server", "proxy")
+	ents, err := os.ReadDir(dir)
+	if err != nil {
+		return nil, err
+	}
+	methods := map[string]*ast.FuncDecl{}
+	for _, e := range ents {
+		n := e.Name()
+		if e.IsDir() || !strings.HasSuffix(n, ".go") || strings.HasSuffix(n, "_test.go") || strings.HasPrefix(n, "verif_") {
+			continue
+		}
+		f, err := parser.ParseFile(fset, filepath.Join(dir, n), nil, 0)
+		if err != nil {
+			return nil, err
+		}
+		for _, d := range f.Decls {
+			if fd, ok := d.(*ast.FuncDecl); ok && fd.Body != nil && fd.Recv != nil && len(fd.Recv.List) == 1 {
+				t := fd.Recv.List[0].Type
+				if s, ok := t.(*ast.StarExpr); ok {
+					t = s.X
+				}
+				if id, ok := t.(*ast.Ident); ok && id.Name == "BaseProxy" {
+					methods[fd.Name.Name] = fd
+				}
+			}
+		}
+	}
+	top := methods["GetWorkConnFromPool"]
+	if top == nil {
+		return nil, fail("server/proxy: (*BaseProxy).GetWorkConnFromPool not found")
+	}
+	r := &cfStartMsg{}
+	recvOf := func(fd *ast.FuncDecl) string {
+		if len(fd.Recv.List[0].Names) == 1 {
+			return fd.Recv.List[0].Names[0].Name
+		}
+		return ""
+	}
+	// the message
+	var arg ast.Expr
+	writes := 0
+	ast.Inspect(top.Body, func(x ast.Node) bool {
+		if ce, ok := x.(*ast.CallExpr); ok && cfSrc(fset, ce.Fun) == "msg.WriteMsg" && len(ce.Args) == 2 {
+			arg = ce.Args[1]
+			writes++
+		}
+		return true
+	})
+	if writes != 1 {
+		return nil, fail("server/proxy/proxy.go: GetWorkConnFromPool has %d msg.WriteMsg calls (1 expected)", writes)
+	}
+	r.shape = "other:" + cfSrc(fset, arg)
+	if ue, ok := arg.(*ast.UnaryExpr); ok && ue.Op == token.AND {
+		if cl, ok := ue.X.(*ast.CompositeLit); ok && cfSrc(fset, cl.Type) == "msg.StartWorkConn" {
+			r.shape = "literal"
+			recv := recvOf(top)
+			universe := map[string]bool{"uint16": true, "uint64": true, "int": true, "string": true, "nil": true, "true": true, "false": true}
+			for _, el := range cl.Elts {
+				kv, ok := el.(*ast.KeyValueExpr)
+				if !ok {
+					r.shape = "other:" + cfSrc(fset, arg)
+					break
+				}
+				local := true
+				ast.Inspect(kv.Value, func(x ast.Node) bool {
+					switch v := x.(type) {
+					case *ast.SelectorExpr:
+						// only the root of a selection is a variable
+						ast.Inspect(v.X, func(y ast.Node) bool {
+							if id, ok := y.(*ast.Ident); ok {
+								if id.Name == recv || id.Obj == nil || id.Obj.Kind != ast.Var || id.Obj.Pos() < top.Pos() || id.Obj.Pos() > top.End() {
+									local = false
+								}
+							}
+							return true
+						})
+						return false
+					case *ast.Ident:
+						if universe[v.Name] && v.Obj == nil {
+							return true
+						}
+						if v.Name == recv || v.Obj == nil || v.Obj.Kind != ast.Var || v.Obj.Pos() < top.Pos() || v.Obj.Pos() > top.End() {
+							local = false
+						}
+					}
+					return true
+				})
+				r.fields = append(r.fields, [3]string{cfSrc(fset, kv.Key), cfSrc(fset, kv.Value), strconv.FormatBool(local)})
+			}
+		}
+	}
+	// writes through the receiver, in the function and in the methods of BaseProxy it calls
+	seen := map[string]bool{}
+	var visit func(fd *ast.FuncDecl)
+	visit = func(fd *ast.FuncDecl) {
+		if seen[fd.Name.Name] {
+			return
+		}
+		seen[fd.Name.Name] = true
+		recv := recvOf(fd)
+		ast.Inspect(fd.Body, func(x ast.Node) bool {
+			switch v := x.(type) {
+			case *ast.AssignStmt:
+				if v.Tok != token.DEFINE {
+					for _, l := range v.Lhs {
+						if root, path := cfLPath(l); root == recv && len(path) > 0 {
+							r.recvWrites = append(r.recvWrites, fd.Name.Name+":"+cfSrc(fset, l)+" =")
+						}
+					}
+				}
+			case *ast.IncDecStmt:
+				if root, path := cfLPath(v.X); root == recv && len(path) > 0 {
+					r.recvWrites = append(r.recvWrites, fd.Name.Name+":"+cfSrc(fset, v))
+				}
+			case *ast.UnaryExpr:
+				if v.Op == token.AND {
+					if root, path := cfLPath(v.X); root == recv && len(path) > 0 {
+						r.recvWrites = append(r.recvWrites, fd.Name.Name+":"+cfSrc(fset, v))
+					}
+				}
+			case *ast.CallExpr:
+				if sel, ok := v.Fun.(*ast.SelectorExpr); ok {
+					if id, ok := sel.X.(*ast.Ident); ok && id.Name == recv {
+						if m := methods[sel.Sel.Name]; m != nil {
+							visit(m)
+						}
+					}
+				}
+			}
+			return true
+		})
+	}
+	visit(top)
+	return r, nil
+}
+
+func cfStrList(w *bytes.Buffer, xs []string) {
+	w.WriteString("[")
+	for i, s := range xs {
+		if i > 0 {
+			w.WriteString(", ")
+		}
+		w.WriteString(strconv.Quote(s))
+	}
+	w.WriteString("]")
+}
+
 func genConnFacts(repo, out string) error {
 	fset := token.NewFileSet()
 	vf, err := parser.ParseFile(fset, filepath.Join(repo, "pkg", "util", "vhost", "vhost.go"), nil, 0)
@@ -444,10 +769,32 @@ func genConnFacts(repo, out string) error {
 		return fail("pkg/util/limit/reader.go: (*Reader).Read does not read from the reader below")
 	}
 
+	mf, err := parser.ParseFile(fset, filepath.Join(repo, "client", "proxy", "proxy_manager.go"), nil, 0)
+	if err != nil {
+		return err
+	}
+	updAll := cfMethod(mf, "Manager", "UpdateAll")
+	if updAll == nil || updAll.Body == nil {
+		return fail("client/proxy/proxy_manager.go: (*Manager).UpdateAll not found")
+	}
+	upd, err := cfUpdateAllFacts(fset, updAll)
+	if err != nil {
+		return err
+	}
+	cfgWriters, err := cfCfgWriters(fset, repo)
+	if err != nil {
+		return err
+	}
+	smsg, err := cfStartMsgFacts(fset, repo)
+	if err != nil {
+		return err
+	}
+
 	q := strconv.Quote
 	var w bytes.Buffer
 	w.WriteString("/- GENERATED by translate/gen_connfacts.go from pkg/util/vhost/vhost.go (Muxer.handle), pkg/util/net/conn.go\n" +
-		"   (wrapQuicStream.Close), pkg/util/limit/reader.go (Reader.Read) and every caller of libio.WithCompressionFromPool. Do not edit. -/\n")
+		"   (wrapQuicStream.Close), pkg/util/limit/reader.go (Reader.Read), every caller of libio.WithCompressionFromPool,\n" +
+		"   client/proxy (Manager.UpdateAll, writers of a running proxy's configuration) and server/proxy/proxy.go (GetWorkConnFromPool). Do not edit. -/\n")
 	w.WriteString("namespace Frp.Gen.ConnFacts\n\n")
 	w.WriteString("/-- (receiver, method, argument, block depth) of every deadline call in (*Muxer).handle, source order -/\n")
 	w.WriteString("def muxerHandleDeadlines : List (String × String × String × Nat) :=\n  [")
@@ -501,6 +848,41 @@ func genConnFacts(repo, out string) error {
 		}
 		fmt.Fprintf(&w, "(%s, %s)", r[0], r[1])
 	}
-	w.WriteString("]\n\nend Frp.Gen.ConnFacts\n")
+	w.WriteString("]\n\n")
+	w.WriteString("/-- (*proxy.Manager).UpdateAll, loop 1 (over the RUNNING proxies): for every `del = true` the conditions on the way to it -/\n")
+	w.WriteString("def updateAllDelConds : List (List String) :=\n  [")
+	for i, c := range upd.delConds {
+		if i > 0 {
+			w.WriteString(", ")
+		}
+		cfStrList(&w, c)
+	}
+	w.WriteString("]\n")
+	w.WriteString("/-- … everything that loop does WITH the running wrapper besides reading its fields (method calls, the wrapper or the\n" +
+		"    address of one of its fields as an argument, assignments to its fields), source order -/\n")
+	w.WriteString("def updateAllTouches : List String := ")
+	cfStrList(&w, upd.touches)
+	w.WriteString("\n/-- … the calls under `if del` -/\ndef updateAllDelBody : List String := ")
+	cfStrList(&w, upd.delBody)
+	w.WriteString("\n/-- … the callees of loop 2 (over the new configuration) -/\ndef updateAllAddCalls : List String := ")
+	cfStrList(&w, upd.addCalls)
+	w.WriteString("\n/-- every assignment in client/proxy to a path through Wrapper.Cfg / Wrapper.pxy / BaseProxy.baseCfg / a typed proxy's cfg -/\n")
+	w.WriteString("def clientCfgWriters : List String := ")
+	cfStrList(&w, cfgWriters)
+	w.WriteString("\n\n/-- server (*BaseProxy).GetWorkConnFromPool: the message handed to msg.WriteMsg — \"literal\" = `&msg.StartWorkConn{…}` built at the call -/\n")
+	fmt.Fprintf(&w, "def startMsgShape : String := %s\n", q(smsg.shape))
+	w.WriteString("/-- (field, value, every variable in the value is a parameter / local of GetWorkConnFromPool) -/\n")
+	w.WriteString("def startMsgFields : List (String × String × Bool) :=\n  [")
+	for i, f := range smsg.fields {
+		if i > 0 {
+			w.WriteString(", ")
+		}
+		fmt.Fprintf(&w, "(%s, %s, %s)", q(f[0]), q(f[1]), f[2])
+	}
+	w.WriteString("]\n")
+	w.WriteString("/-- assignments through the receiver and addresses taken of its fields, in GetWorkConnFromPool and the BaseProxy methods it calls -/\n")
+	w.WriteString("def startMsgRecvWrites : List String := ")
+	cfStrList(&w, smsg.recvWrites)
+	w.WriteString("\n\nend Frp.Gen.ConnFacts\n")
 	return os.WriteFile(filepath.Join(out, "ConnFacts.lean"), w.Bytes(), 0o644)
 }
